@@ -5,15 +5,20 @@ Steps: patch applies to /repo; repo builds; repo tests pass with it; demo fails 
 named checks run against it; /repo restored."""
 import json, os, shutil, subprocess, sys
 name, prop, outdir = sys.argv[1:4]
+# By default the patch is applied to /repo itself and undone afterwards.  With SEEDTEST_REPO=<dir> a scratch
+# worktree of /repo is used instead (checks run with VERIF_REPO=<dir>), so that other runs against /repo are not disturbed.
+REPO = os.environ.get("SEEDTEST_REPO", "/repo")
 checks = sys.argv[4:] or [prop]
-env = dict(os.environ, GOFLAGS="-mod=mod", GOPROXY="off", GOSUMDB="off", GOTOOLCHAIN="local", PQL_SRC="/repo")
+env = dict(os.environ, GOFLAGS="-mod=mod", GOPROXY="off", GOSUMDB="off", GOTOOLCHAIN="local", PQL_SRC=REPO, VERIF_REPO=REPO)
 def sh(cmd, **kw): return subprocess.run(cmd, shell=True, capture_output=True, text=True, env=env, **kw)
-assert sh("git -C /repo status --porcelain").stdout.strip() == "", "/repo not clean"
+if REPO != "/repo" and not os.path.isdir(REPO):
+    sh("git -C /repo worktree add --detach %s HEAD" % REPO)
+assert sh("git -C %s status --porcelain" % REPO).stdout.strip() == "", REPO + " not clean"
 patch = os.path.join(outdir, "patch.diff")
 dst = "/verif/seeded/%s" % name
 os.makedirs(dst, exist_ok=True)
-meta = {"property": prop, "patch": "patch.diff", "ran": []}
-r = sh("git -C /repo apply --check " + patch)
+meta = {"property": prop, "patch": "patch.diff", "ran": [], "applied_to": REPO}
+r = sh("git -C %s apply --check %s" % (REPO, patch))
 if r.returncode: print("patch does not apply:", r.stderr); sys.exit(2)
 # demo: point its replace at /repo
 demo_src = os.path.join(outdir, "demo")
@@ -26,18 +31,18 @@ if has_demo:
     if os.path.exists(gm):
         s = open(gm).read()
         import re
-        s = re.sub(r"=> /tmp/seed-[A-Za-z0-9-]+", "=> /repo", s)
+        s = re.sub(r"=> /tmp/seed[A-Za-z0-9-]+", "=> " + REPO, s)
         open(gm, "w").write(s)
-    shutil.copy("/repo/go.sum", os.path.join(demo, "go.sum"))
+    shutil.copy(os.path.join(REPO, "go.sum"), os.path.join(demo, "go.sum"))
 def run_demo():
     if not has_demo: return None
     t = sh("cd %s && (go test -count=1 ./... 2>&1 || true) | tail -15" % demo)
     ok = "FAIL" not in t.stdout and "ok" in t.stdout
     return ok, t.stdout[-600:]
 base_demo = run_demo()
-sh("git -C /repo apply " + patch)
+sh("git -C %s apply %s" % (REPO, patch))
 try:
-    t = sh("cd /repo && go build ./... && go test -mod=mod -vet=off -count=1 ./... 2>&1 | tail -5")
+    t = sh("cd %s && go build ./... && go test -mod=mod -vet=off -count=1 ./... 2>&1 | tail -5" % REPO)
     tests_ok = t.returncode == 0 and "FAIL" not in t.stdout
     meta["repo_tests_pass_with_change"] = tests_ok
     print("repo tests with change:", "pass" if tests_ok else "FAIL " + t.stdout)
@@ -61,7 +66,7 @@ try:
         print(c, verdict, (p.stderr[-300:] if p.returncode == 2 else ""))
         for d in det[:2]: print("    ", d["kind"], d["input"][:90], "|", d["reason"][:120])
 finally:
-    sh("git -C /repo checkout -- .")
+    sh("git -C %s checkout -- ." % REPO)
     shutil.rmtree(demo, ignore_errors=True)
 shutil.copy(patch, os.path.join(dst, "patch.diff"))
 if has_demo:
